@@ -30,9 +30,22 @@ CLAIMS = [
                 'iteration counts 0..2 only (loop abstraction forgets Dykstra increments).',
         'design_ref': 'DESIGN.md section 4 C04',
     },
+    {
+        'property_id': 'C06',
+        'level': 'other',
+        'technique': 'contract-based deductive verification of the real function bodies (sidecar contracts, VCs to '
+                     'z3/cvc5), per discrete configuration; _topological_sort evaluated on enumerated pair sets',
+        'text': 'Sign, monotonic-dominance, range-dominance, unit-norm, categorical ordering, bounds and '
+                'feasible=>unchanged clauses are postconditions on the real linear_lib.project, '
+                'categorical_calibration_lib.project, approximately_project_categorical_partial_monotonicities and the '
+                'two constraint __call__ methods; discharged for ALL real weights and symbolic bounds per configuration.',
+        'note': 'Trusted: operator contracts (cross-checked each run), sqrt axiom for the 2-norm, z3/cvc5, reals for '
+                'floats. Bounded: DAGs on <= 4 nodes, linear dims <= 3/4, <= 2 dominance pairs, concrete input ranges, units <= 2.',
+        'design_ref': 'DESIGN.md section 4 C06',
+    },
 ]
 
 _PENDING = 'check not built yet in this session (planned, see DESIGN.md section 4); not claimed until its check exists'
 NOT_APPLICABLE = [
-    {'property_id': 'C%02d' % i, 'reason': _PENDING} for i in range(2, 21) if i not in (4,)
+    {'property_id': 'C%02d' % i, 'reason': _PENDING} for i in range(2, 21) if i not in (4, 6)
 ]
